@@ -62,6 +62,7 @@ type event struct {
 	MustFail bool     `json:"mustfail"`
 	Kind     string   `json:"kind,omitempty"`
 	Equal    bool     `json:"equal"`
+	LitOK    bool     `json:"litok"`
 }
 
 // Primes returns count primes of exactly the given bit length congruent to 1 modulo nthRoot (scanning down).
@@ -473,6 +474,55 @@ func (e *event) construct(v vec) {
 	c := build(v)
 	e.Lit = fmt.Sprintf("LogN=%d Q=%v P=%v LogQ=%v LogP=%v rt=%d t=%d scale=%d", c.logN, c.q, c.p, c.logQ, c.logP, c.rt, c.t, c.scale)
 	var unsound string
+	// the slices of the literal are prefixes of longer tables (as when a caller takes the first k primes of a chain):
+	// the constructor must leave the tables, spare capacity included, as they were
+	spareU := func(x []uint64) ([]uint64, []uint64) {
+		t := make([]uint64, len(x), len(x)+4)
+		copy(t, x)
+		full := t[:cap(t)]
+		for i := len(x); i < len(full); i++ {
+			full[i] = 0xdead0000 + uint64(i)
+		}
+		return t, append([]uint64{}, full...)
+	}
+	spareI := func(x []int) ([]int, []int) {
+		t := make([]int, len(x), len(x)+4)
+		copy(t, x)
+		full := t[:cap(t)]
+		for i := len(x); i < len(full); i++ {
+			full[i] = 7000 + i
+		}
+		return t, append([]int{}, full...)
+	}
+	var q0, p0 []uint64
+	var lq0, lp0 []int
+	if c.q != nil {
+		c.q, q0 = spareU(c.q)
+	}
+	if c.p != nil {
+		c.p, p0 = spareU(c.p)
+	}
+	if c.logQ != nil {
+		c.logQ, lq0 = spareI(c.logQ)
+	}
+	if c.logP != nil {
+		c.logP, lp0 = spareI(c.logP)
+	}
+	defer func() {
+		e.LitOK = true
+		for i, x := range q0 {
+			e.LitOK = e.LitOK && c.q[:cap(c.q)][i] == x
+		}
+		for i, x := range p0 {
+			e.LitOK = e.LitOK && c.p[:cap(c.p)][i] == x
+		}
+		for i, x := range lq0 {
+			e.LitOK = e.LitOK && c.logQ[:cap(c.logQ)][i] == x
+		}
+		for i, x := range lp0 {
+			e.LitOK = e.LitOK && c.logP[:cap(c.logP)][i] == x
+		}
+	}()
 	_, pan, msg := guard(func() string {
 		switch v.Scheme {
 		case "rlwe":
